@@ -98,14 +98,20 @@ def h64(text):
 class Ctx:
     """Per-shard collection of what the monitors observed."""
 
-    def __init__(self, prop, tier, seed, shard, nshards, params):
+    def __init__(self, prop, tier, seed, shard, nshards, params, mirror=False):
         self.prop = prop
         self.tier = tier
         self.seed = seed
         self.shard = shard
         self.nshards = nshards
         self.params = params
-        self.rng = random.Random(f"{seed}/{prop}/{tier}/{shard}")
+        # A *mirror* shard replays the case stream of shard 0 in reverse order: the same cases meet a
+        # process with a different history, and their observation digests must coincide.
+        self.mirror = mirror
+        self.stream = 0 if mirror else shard
+        self.rng = random.Random(f"{seed}/{prop}/{tier}/{self.stream}")
+        self.gen_rng = random.Random(f"{seed}/{prop}/{tier}/{self.stream}/gen")
+        self.digests = {}
         self.evaluations = 0
         self.counters = {}
         self.keys = set()
@@ -149,6 +155,16 @@ class Ctx:
                 }
             )
 
+    def digest(self, key, observation):
+        """Record what was observed for case `key` of this stream (compared between shard 0 and its mirror)."""
+        if self.stream == 0:
+            self.digests[str(key)] = h64(observation if isinstance(observation, str) else canon(observation))
+
+    def ordered(self, cases):
+        """Cases with their indices, in stream order (reversed in the mirror shard)."""
+        pairs = list(enumerate(cases))
+        return list(reversed(pairs)) if self.mirror else pairs
+
     def inconclusive_reason(self, reason):
         if reason not in self.inconclusive:
             self.inconclusive.append(reason)
@@ -171,6 +187,8 @@ class Ctx:
             "witnesses": self.witnesses,
             "witness_counts": self.witness_counts,
             "inconclusive": self.inconclusive,
+            "digests": self.digests,
+            "mirror": self.mirror,
         }
 
 
@@ -226,7 +244,7 @@ def worker_main(args):
     sys.setrecursionlimit(1000)
     mod = load_check(args.prop)
     plan = mod.plan(args.tier)
-    ctx = Ctx(args.prop, args.tier, args.seed, args.shard, args.nshards, plan)
+    ctx = Ctx(args.prop, args.tier, args.seed, args.shard, args.nshards, plan, mirror=args.mirror)
     status = "ok"
     reach = None
     try:
@@ -262,7 +280,7 @@ def worker_main(args):
 # driver
 
 
-def _spawn(prop, tier, seed, shard, nshards, out, timeout, hashseed="0"):
+def _spawn(prop, tier, seed, shard, nshards, out, timeout, hashseed="0", mirror=False):
     env = dict(os.environ)
     env["PYTHONHASHSEED"] = hashseed
     env["PYTHONDONTWRITEBYTECODE"] = "1"
@@ -271,7 +289,7 @@ def _spawn(prop, tier, seed, shard, nshards, out, timeout, hashseed="0"):
         bootstrap.PYTHON, "-X", "faulthandler", "-m", "vlib.runner", prop,
         "--tier", tier, "--shard", str(shard), "--nshards", str(nshards),
         "--seed", str(seed), "--out", out,
-    ]
+    ] + (["--mirror"] if mirror else [])
     try:
         proc = subprocess.run(
             cmd, cwd=VERIF_DIR, env=env, timeout=timeout,
@@ -325,8 +343,10 @@ def driver_main(args):
         outs = [os.path.join(scratch, f"s{idx}.json") for idx in range(nshards)]
         workers = min(int(os.environ.get("VERIF_JOBS", "16")), nshards)
         with ThreadPoolExecutor(max_workers=workers) as pool:
+            mirror_shard = nshards - 1 if plan.get("mirror") and nshards > 1 else None
             futures = [
-                pool.submit(_spawn, prop, tier, seed, idx, nshards, outs[idx], timeout)
+                pool.submit(_spawn, prop, tier, seed, idx, nshards, outs[idx], timeout, "0",
+                            idx == mirror_shard)
                 for idx in range(nshards)
             ]
             results = [fut.result() for fut in futures]
@@ -359,13 +379,43 @@ def driver_main(args):
             for reason in rep["inconclusive"]:
                 if reason not in merged["inconclusive"]:
                     merged["inconclusive"].append(reason)
+            if rep.get("digests"):
+                merged.setdefault("digests", {})["mirror" if rep.get("mirror") else "forward"] = rep["digests"]
             arr = array.array("Q")
             with open(outs[idx] + ".keys", "rb") as handle:
                 arr.frombytes(handle.read())
             keys.update(arr)
     finally:
         shutil.rmtree(scratch, ignore_errors=True)
+    compare_histories(merged, plan)
     return conclude(mod, prop, tier, seed, merged, len(keys), time.time() - start)
+
+
+def compare_histories(merged, plan):
+    """Process-history independence: shard 0 and its mirror saw the same cases in opposite order."""
+    if not plan.get("mirror"):
+        return
+    digests = merged.get("digests", {})
+    forward, mirror = digests.get("forward"), digests.get("mirror")
+    counters = merged["counters"]
+    if not forward or not mirror:
+        merged["inconclusive"].append("mirror shard produced no digests to compare")
+        return
+    common = sorted(set(forward) & set(mirror), key=lambda k: (len(k), k))
+    counters["history.cases_compared_across_processes"] = len(common)
+    differing = [key for key in common if forward[key] != mirror[key]]
+    if len(common) < max(4, min(len(forward), len(mirror)) // 2):
+        merged["inconclusive"].append("mirror shard and shard 0 share too few cases")
+    if differing:
+        key = "UNLISTED|depends_on_process_history"
+        merged["witness_counts"][key] = merged["witness_counts"].get(key, 0) + len(differing)
+        merged["witnesses"].setdefault(key, []).append({
+            "kind": "depends_on_process_history", "finding": None,
+            "detail": (f"{len(differing)} of {len(common)} cases were observed differently by a process that "
+                       f"handled the same cases in reverse order; first case indices: {differing[:8]}"),
+            "case": {"stream": 0, "case_indices": differing[:20],
+                     "note": "re-run the check with the same VERIF_SEED: shard 0 and the mirror shard"},
+        })
 
 
 def conclude(mod, prop, tier, seed, merged, distinct, wall, replaying=False):
@@ -501,6 +551,7 @@ def main(argv=None):
     parser.add_argument("--shard", type=int, default=None)
     parser.add_argument("--nshards", type=int, default=1)
     parser.add_argument("--out", default=None)
+    parser.add_argument("--mirror", action="store_true")
     parser.add_argument("--replay", default=None)
     parser.add_argument("--setup", action="store_true")
     args = parser.parse_args(argv)
